@@ -48,8 +48,20 @@ SHARD_TIMEOUT = {'quick': 600, 'thorough': 3300}
 # reports before the runner's watchdog).  Skipped cases are counted, never a verdict.
 SHARD_DEADLINE = {'quick': 55.0, 'thorough': 780.0}
 SHARD_WALL_SAFETY = {'quick': 420.0, 'thorough': 2500.0}
+# A call that exceeds B is not yet a violation (the statement is about termination after a *bounded* amount of
+# computation; B is only the restatement): it is re-executed once in a fresh child with the extended allowance
+# EXT*B steps and EXT*t1 CPU seconds, t1 = CPU time the first pass needed to exceed B (both budgets scaled alike).
+#   it terminates                          -> held, noted as 'over budget but terminates' with its step count
+#   it exceeds EXT*B steps, or EXT*t1 s    -> violation (over B and not finished within 25 times that allowance)
+#   EXT*t1 is above the practical cap T3 and the cap fires first, or the step rate of the first pass projects beyond
+#   T3 -> undecided.  For cells already listed as known findings only the short cap T3_KNOWN is spent (the verdict
+#   never depends on the list, only the time spent does).
+EXT = 25
+T3 = {'quick': 240.0, 'thorough': 420.0}
+T3_KNOWN = {'quick': 20.0, 'thorough': 420.0}
 DEADLINE_SLACK = {'quick': 20.0, 'thorough': 90.0}      # an extension beyond T1 must project to end before deadline+slack
 N_SHARDS = 16
+MEM_LIMIT = 6 * 2**30        # address-space limit of a child (bytes)
 
 RULE = ('seeded stratified generation: every catalog function x argument style (generic, asymptotic edge |z|~c*p and '
         '|z|~c*sqrt(p), big, tiny, unit circle, near non-positive integers, large order, degenerate parameter pairs) x '
@@ -98,7 +110,7 @@ COST = {'airyai': 0.11, 'airyaizero': 0.45, 'airybi': 0.27, 'airybizero': 0.37, 
         'polylog': 0.20, 'primezeta': 0.96, 'psi': 0.11, 'qp': 0.12, 'rf': 0.10, 'rgamma': 0.10, 'riemannr': 0.10,
         'scorergi': 0.13, 'shi': 0.06, 'siegeltheta': 0.09, 'siegelz': 0.10, 'stieltjes': 0.37, 'struveh': 0.11,
         'struvel': 0.08, 'whitw': 0.15, 'zeta': 0.21}
-CASES_PER_FUNCTION = {'quick': 110, 'thorough': 800}
+CASES_PER_FUNCTION = {'quick': 110, 'thorough': 600}
 MIN_CASES = {'quick': 10, 'thorough': 60}
 
 
@@ -369,24 +381,52 @@ DIRECTED = [
 ]
 
 
+def ncases(name, tier):
+    return max(MIN_CASES[tier], int(CASES_PER_FUNCTION[tier] * weight(name)))
+
+
+def _noise(spec, r):
+    """seed-dependent low mantissa bits on full-width mantissas; short mantissas (integers, half-integers, n +- 2^-k,
+    powers of two ...) keep their exact structure"""
+    if spec[0] == 'I':
+        return spec
+
+    def f(raw):
+        sg, m, e, bc = raw
+        if bc < 40:
+            return raw
+        return canon(sg, (m >> 16 << 16) | r.getrandbits(16) | 1, e)
+    return (spec[0],) + tuple(f(x) for x in spec[1:])
+
+
 def make_cases(tier, seed, shard, nshards):
-    """deterministic list of cases of this shard: (function, style, precision, specs)"""
+    """List of cases of this shard: (function, style, precision, specs).
+
+    Stratified and seed-stable (DESIGN 2.4): case j of a function has a *shape* -- style, precision, magnitudes,
+    parameter structure -- drawn from a generator keyed by (function, j) only, so every seed visits the same cells
+    (quick is a prefix of thorough) and a known over-budget cell is met on every seed alike.  The seed supplies the
+    low mantissa bits of all full-width arguments, and -- for every second case of the cheap class (|x| <= 10^4,
+    precision <= 400, not a large-magnitude style) -- the complete arguments (exploratory half)."""
+    import random
     r = G.rng(PROP, seed, shard)
     fns = functions()
-    per = CASES_PER_FUNCTION[tier]
     cases = []
     for fi, name in enumerate(fns):
-        n = max(MIN_CASES[tier], int(per * weight(name)))
+        nq = ncases(name, 'quick')
+        n = ncases(name, tier)
         # case j of the function belongs to shard (j + fi) % nshards: all shards see all functions
         for j in range(n):
             if (j + fi) % nshards != shard:
                 continue
+            rs = random.Random('C24-shape:%s:%d' % (name, j))
+            env = 'quick' if j < nq else 'thorough'          # envelope of the case: |x| <= 10^4 / 10^6
             style = STYLES[(j // nshards + j) % len(STYLES)]
-            p = pick_prec(r, name, tier, style)
-            try:
-                specs = gen_args(r, name, style, p, tier)
-            except Exception as e:        # generator bug must not look like a library failure
-                raise
+            p = pick_prec(rs, name, env, style)
+            if j % 2 == 1 and p <= 400 and style not in ('big', 'order'):
+                specs = gen_args(r, name, style, p, 'quick')
+                style += '*'                                 # exploratory: arguments fully seed-dependent
+            else:
+                specs = [_noise(sp, r) for sp in gen_args(rs, name, style, p, env)]
             cases.append((name, style, p, specs))
     r.shuffle(cases)
     for j, (name, p, specs) in enumerate(DIRECTED):
@@ -600,6 +640,11 @@ def child_main(cases, start, wfd, tier, cpu_left, wall_end):
         def __init__(self): self.a = {}
         def anchor(self, k, v): self.a[k] = self.a.get(k, 0) + v
     ar = _R()
+    try:
+        import resource
+        resource.setrlimit(resource.RLIMIT_AS, (MEM_LIMIT, MEM_LIMIT))      # a runaway allocation becomes MemoryError -> undecided
+    except Exception:
+        pass
     sb = StepBudget(BUDGET[tier])
     sb.install()
     watch = Watch(sb, tier, cpu_left)
@@ -623,14 +668,19 @@ def child_main(cases, start, wfd, tier, cpu_left, wall_end):
             if time.process_time() > cpu_left or time.time() > wall_end:
                 send({'deadline': i})
                 break
-            name, style, p, specs = cases[i]
-            send({'begin': i})
-            if style in ('directed', 'replay'):
-                send({'extended': i})
-            watch.notify = lambda i=i: send({'extended': i})
+            name, style, p, specs = cases[i][:4]
+            opt = cases[i][4] if len(cases[i]) > 4 else {}
             ct = CLASS_TIER[input_class(name, specs)]
-            res = run_one(mp, sb, watch, name, specs, p, BUDGET[ct], WALL_T2[ct], full=(style in ('directed', 'replay')))
-            res['budget'] = BUDGET[ct]
+            budget = opt.get('budget', BUDGET[ct])
+            t2 = opt.get('t2', WALL_T2[ct])
+            full = bool(opt) or style in ('directed', 'replay')
+            send({'begin': i})
+            if full:
+                send({'extended': i, 't2': t2})
+            watch.notify = lambda i=i, t2=t2: send({'extended': i, 't2': t2})
+            res = run_one(mp, sb, watch, name, specs, p, budget, t2, full=full)
+            res['budget'] = budget
+            res['extended_pass'] = bool(opt)
             res['i'] = i
             res['tainted'] = tainted
             send(res)
@@ -653,7 +703,8 @@ def child_main(cases, start, wfd, tier, cpu_left, wall_end):
 # ---------------------------------------------------------------------------------------
 
 def verdict(rec, case, res, tier):
-    name, style, p, specs = case
+    name, style, p, specs = case[:4]
+    opt = case[4] if len(case) > 4 else {}
     ident = (name, tuple(specs), p)
     out = res['out']
     steps = res.get('steps', 0)
@@ -664,10 +715,16 @@ def verdict(rec, case, res, tier):
     cdesc = {'function': name, 'args': [show_spec(s) for s in specs], 'specs': specs, 'prec': p, 'style': style,
              'steps': steps, 'cpu_s': res.get('wall')}
     rec.case(ident, True, cls='%s/%s' % (cat, out if out != 'documented' else 'documented:' + res.get('exc', '?')))
-    rec.cls('style/' + style)
+    rec.cls('style/' + style.rstrip('*') + ('/exploratory' if style.endswith('*') else ''))
     rec.cls('class/' + ('|x|<=1e4 (B=2e7)' if ct == 'quick' else '|x|<=1e6 (B=4e8)'))
     rec.cls('fn/' + name)
     rec.event('outermost calls under the step counter')
+    if opt and out in ('returned', 'documented'):
+        # extended pass: over B, but it terminates
+        rec.cls('over-budget-but-terminates/' + name)
+        rec.note('over budget B but terminates within %d*B (held)' % EXT,
+                 {'function': name, 'args': cdesc['args'], 'prec': p, 'steps': steps, 'B': B // EXT, 'cpu_s': res.get('wall')})
+        rec.maximum('steps of calls over B that terminate', steps, {'function': name, 'args': cdesc['args'], 'prec': p})
     if out in ('returned', 'documented', 'undocumented'):
         rec.maximum('steps/' + name, steps, {'args': cdesc['args'], 'prec': p})
         rec.cls('hist/%s/%d' % (name, int(4 * math.log2(max(steps, 1)))))
@@ -678,8 +735,8 @@ def verdict(rec, case, res, tier):
     if out == 'budget':
         cdesc['stack'] = res.get('stack')
         rec.violation('C24/budget/%s/%s' % (name, cell),
-                      '%s did not return within %d logical steps (|x|<=%d, prec %d): no bounded progress'
-                      % (name, B, XMAX[ct], p), cdesc,
+                      '%s did not return within %d logical steps (%d x the budget B=%d of its input class |x|<=%d; prec %d): no bounded progress'
+                      % (name, B, EXT if opt else 1, B // (EXT if opt else 1), XMAX[ct], p), cdesc,
                       observed='> %d steps; interrupted at %s' % (B, (res.get('stack') or ['?'])[-1]),
                       expected='return or documented exception within %d steps' % B)
     elif out == 'undocumented':
@@ -691,6 +748,13 @@ def verdict(rec, case, res, tier):
     elif out == 'wall':
         cdesc['stack'] = res.get('stack')
         rec.undecided('CPU-time cap T1=%.0f s reached, step rate too low to reach the budget within T2=%.0f s' % (WALL_T1[tier], WALL_T2[ct]), cdesc)
+    elif out == 'wall2' and opt.get('time_scaled'):
+        cdesc['stack'] = res.get('stack'); cdesc['first_pass_cpu_s'] = opt.get('first_cpu')
+        rec.violation('C24/budget/%s/%s' % (name, cell),
+                      '%s exceeded the budget B=%d in %.1f CPU s and did not return within %d times that time (%d steps done): no bounded progress'
+                      % (name, B // EXT, opt.get('first_cpu') or 0, EXT, steps), cdesc,
+                      observed='> %d steps in %.0f CPU s; interrupted at %s' % (steps, res.get('wall') or 0, (res.get('stack') or ['?'])[-1]),
+                      expected='return or documented exception within B=%d steps (or at least within %d x that allowance)' % (B // EXT, EXT))
     elif out == 'wall2':
         cdesc['stack'] = res.get('stack')
         rec.undecided('extended CPU-time cap T2 reached before the step budget', cdesc)
@@ -752,7 +816,7 @@ def supervise(cases, rec, tier, t_start, confirm=None, final=True):
                     elif 'begin' in msg:
                         began = msg['begin']; t_began = time.time(); hard = hard1
                     elif 'extended' in msg:
-                        hard = hard2
+                        hard = 4 * (msg.get('t2', WALL_T2[tier]) + WALL_HARD_EXTRA)
                         rec.event('cases run under the extended wall cap T2 (directed, or step rate projects to reach the budget)')
                     elif 'deadline' in msg:
                         rec.event('cases not started: shard deadline', len(cases) - msg['deadline'])
@@ -763,8 +827,11 @@ def supervise(cases, rec, tier, t_start, confirm=None, final=True):
                         if msg.get('done'):
                             finished = True
                     elif 'i' in msg:
-                        if msg.get('tainted') and msg['out'] in ('budget', 'undocumented') and confirm is not None:
-                            confirm.append(cases[msg['i']])
+                        if confirm is not None and msg['out'] == 'budget':
+                            confirm.append((cases[msg['i']], msg))
+                            rec.event('calls over the budget B (candidates for the extended pass)')
+                        elif confirm is not None and msg.get('tainted') and msg['out'] == 'undocumented':
+                            confirm.append((cases[msg['i']], None))
                             rec.event('violation candidates seen in a tainted child, re-executed in a fresh one')
                         else:
                             verdict(rec, cases[msg['i']], msg, tier)
@@ -800,9 +867,37 @@ def supervise(cases, rec, tier, t_start, confirm=None, final=True):
     for k, v in anchors.items():
         rec.anchor(k, v)
     if final:
-        for c in confirm:
+        known = None
+        for c, first in confirm:
             # fresh child per case (never tainted when it reports), no shard deadline for confirmations
-            supervise([c], rec, tier, time.time(), confirm=None, final=False)
+            if first is None:
+                supervise([c], rec, tier, time.time(), confirm=None, final=False)
+                continue
+            if known is None:
+                try:
+                    from vf.core import load_known
+                    known = set(load_known(PROP))
+                except Exception:
+                    known = set()
+            name, style, p, specs = c[:4]
+            B = first.get('budget', BUDGET['quick'])
+            key = 'C24/budget/%s/%s' % (name, regime(specs, p))
+            t3 = T3_KNOWN[tier] if key in known else T3[tier]
+            rate = first.get('steps', 0) / max(first.get('wall') or 0.0, 1e-3)
+            projected = EXT * B / max(rate, 1.0)
+            if projected > 1.25 * t3 and EXT * (first.get('wall') or 0.0) > t3:
+                cdesc = {'function': name, 'args': [show_spec(x) for x in specs], 'specs': specs, 'prec': p, 'style': style,
+                         'first_pass_steps': first.get('steps'), 'first_pass_cpu_s': first.get('wall'), 'stack': first.get('stack')}
+                rec.case((name, tuple(specs), p), True, cls='%s/over-budget:extended-pass-not-reachable' % K.ENTRIES[name][0])
+                rec.cls('fn/' + name)
+                rec.undecided('over the budget B; the extended budget %d*B is not reachable within the CPU cap (%d s) at the observed step rate%s'
+                              % (EXT, t3, ' [cell listed as known finding: short cap]' if key in known else ''), cdesc)
+                continue
+            rec.event('extended passes run (budget %d*B)' % EXT)
+            t_ext = EXT * max(first.get('wall') or 0.0, 0.5)
+            supervise([(name, style, p, specs, {'budget': EXT * B, 't2': min(t_ext, t3), 'time_scaled': t_ext <= t3,
+                                                'first': first.get('steps'), 'first_cpu': first.get('wall')})],
+                      rec, tier, time.time(), confirm=None, final=False)
 
 
 def shards(tier, seed):
